@@ -381,6 +381,10 @@ class E1Model:
         if src["kind"] == "sim":
             init = src["start"]
             return LinkModel(ln["chain"], init, source_pubs=lambda upto, a=sci, b=soi: self.pubs(a, b, upto))
+        if src["kind"] == "static":
+            # one publication, served unchanged for every request time (chains are pass-through only)
+            v0 = float(src["outputs"][soi]["base"])
+            return LinkModel(ln["chain"], self.t0, source_eval=lambda t, v0=v0: (v0,))
         # pull-based source: info time comes from the consumer side
         init = self.t0      # pull-based stubs declare the composition start on their slots
         o = src["outputs"][soi]
@@ -481,6 +485,8 @@ class E1Model:
         src = self.sc["components"][sci]
         if src["kind"] == "sim":
             return {(sci, soi, tr)}
+        if src["kind"] == "static":
+            return set()
         out = set()
         seen = seen or set()
         if (sci, tr) in seen:
